@@ -265,6 +265,11 @@ func checkC03(c *Check) {
 	checkNoOutsideAccess(c, named, w)
 	// S7 the event handed over with a login stays the producer's
 	loginEventReadOnly(c)
+	// the deliveries reach the tracker in stream order: the reassembler's
+	// callback hands every event over itself, synchronously (rules of C15 on
+	// the callback: no queue or second goroutine between the two)
+	nd := importRules(c, "C15", checkC15, "deliveries-in-stream-order: ", "event-reaches-correlator")
+	c.Floor("imported deliveries-in-stream-order obligations", 2, nd)
 
 	// informational: who calls the entry points
 	callers := map[string][]string{}
@@ -547,18 +552,25 @@ func isValueMethodOfErrorOrStringer(f *ssa.Function) bool {
 // mutating builder call whose target is reached through the Source field.
 func loginEventReadOnly(c *Check) {
 	p := c.P
-	viaSource := func(v ssa.Value) bool {
+	// viaSource: the address (or map, or receiver) v is reached through the
+	// Source pointer of a RemoteUserLogin. copied reports that the path went
+	// through a by-value copy of the event (src := *login.Source): plain
+	// fields of the copy are the copy's own, but its maps, slices and
+	// pointers are still the original's.
+	var viaSource func(v ssa.Value, depth int) (hit, copied bool)
+	viaSource = func(v ssa.Value, depth int) (bool, bool) {
 		cur := v
-		for i := 0; i < 12 && cur != nil; i++ {
+		copied := false
+		for i := 0; i < 14 && cur != nil; i++ {
 			switch x := cur.(type) {
 			case *ssa.FieldAddr:
 				if nt := namedOf(x.X.Type()); nt != nil && nt.Obj().Name() == "RemoteUserLogin" && fieldName(x.X.Type(), x.Field) == "Source" {
-					return true
+					return true, copied
 				}
 				cur = x.X
 			case *ssa.Field:
 				if nt := namedOf(x.X.Type()); nt != nil && nt.Obj().Name() == "RemoteUserLogin" && fieldName(x.X.Type(), x.Field) == "Source" {
-					return true
+					return true, copied
 				}
 				cur = x.X
 			case *ssa.IndexAddr:
@@ -567,15 +579,36 @@ func loginEventReadOnly(c *Check) {
 				cur = x.X
 			case *ssa.ChangeType:
 				cur = x.X
+			case *ssa.Alloc:
+				// a local copy: what was stored into it as a whole
+				if depth > 2 || x.Referrers() == nil {
+					return false, false
+				}
+				for _, u := range *x.Referrers() {
+					if st, ok := u.(*ssa.Store); ok && st.Addr == ssa.Value(x) {
+						if h, _ := viaSource(st.Val, depth+1); h {
+							return true, true
+						}
+					}
+				}
+				return false, false
 			default:
-				return false
+				return false, false
 			}
+		}
+		return false, false
+	}
+	refType := func(t types.Type) bool {
+		switch t.Underlying().(type) {
+		case *types.Map, *types.Slice, *types.Pointer:
+			return true
 		}
 		return false
 	}
 	nread, nfn := 0, 0
 	for _, fn := range p.AllRepoFuncs() {
-		if !strings.HasPrefix(FuncPkgPath(fn), ModPath+"/processors/auditd") || fn.Blocks == nil {
+		pk := FuncPkgPath(fn)
+		if !(strings.HasPrefix(pk, ModPath+"/processors/auditd") || pk == ModPath+"/internal/common") || fn.Blocks == nil {
 			continue
 		}
 		nfn++
@@ -585,39 +618,54 @@ func loginEventReadOnly(c *Check) {
 				if _, isAlloc := x.Addr.(*ssa.Alloc); isAlloc {
 					return
 				}
-				// writing the Source field itself (of a local copy) is not a write through it
 				if fa, ok := x.Addr.(*ssa.FieldAddr); ok {
-					if viaSource(fa.X) {
-						c.Bad("S7 login-event-read-only", "store in "+fn.Name(), p.InstrPos(in), "a field of the event handed over with the login (RemoteUserLogin.Source) is written by the correlator: the sshd worker that built the event may still be encoding it, and the tracker mutex does not cover that worker")
+					// a direct field of a by-value copy is the copy's own
+					if h, cp := viaSource(fa.X, 0); h {
+						if _, baseIsCopy := fa.X.(*ssa.Alloc); cp && baseIsCopy {
+							return
+						}
+						c.Bad("S7 login-event-read-only", "store in "+fn.Name(), p.InstrPos(in), "a field of the event handed over with the login (RemoteUserLogin.Source) is written on the correlator's side: the sshd worker that built the event may still be encoding it, the tracker mutex does not cover that worker, and every event of the session is rendered from this object")
 					}
 					return
 				}
-				if viaSource(x.Addr) {
-					c.Bad("S7 login-event-read-only", "store in "+fn.Name(), p.InstrPos(in), "the event handed over with the login (RemoteUserLogin.Source) is written by the correlator")
+				if h, _ := viaSource(x.Addr, 0); h {
+					c.Bad("S7 login-event-read-only", "store in "+fn.Name(), p.InstrPos(in), "the event handed over with the login (RemoteUserLogin.Source) is written on the correlator's side")
 				}
 			case *ssa.MapUpdate:
-				if viaSource(x.Map) {
-					c.Bad("S7 login-event-read-only", "map update in "+fn.Name(), p.InstrPos(in), "a map of the event handed over with the login (RemoteUserLogin.Source) is updated by the correlator while the sshd worker that built the event may still be encoding it: concurrent map write and iteration")
+				if h, cp := viaSource(x.Map, 0); h {
+					why := "a map of the event handed over with the login (RemoteUserLogin.Source) is updated on the correlator's side while the sshd worker that built the event may still be encoding it: concurrent map write and iteration"
+					if cp {
+						why = "a map reached through a by-value copy of the login's event (RemoteUserLogin.Source) is updated: the copy shares its maps with the original, so the stored login's identity content changes (and the sshd worker may still be encoding it)"
+					}
+					c.Bad("S7 login-event-read-only", "map update in "+fn.Name(), p.InstrPos(in), why)
 				}
 			case ssa.CallInstruction:
 				cc := x.Common()
 				sc := staticCallee(cc)
-				if sc == nil || sc.Signature.Recv() == nil || len(cc.Args) == 0 || !viaSource(cc.Args[0]) {
-					if sc != nil && len(cc.Args) > 0 && viaSource(cc.Args[0]) {
-						nread++
-					}
+				if len(cc.Args) == 0 {
 					return
 				}
-				if strings.HasPrefix(sc.Name(), "With") || strings.HasPrefix(sc.Name(), "Set") || strings.HasPrefix(sc.Name(), "Add") {
+				h, cp := viaSource(cc.Args[0], 0)
+				if !h {
+					return
+				}
+				if sc == nil || sc.Signature.Recv() == nil {
+					nread++
+					return
+				}
+				if !cp && (strings.HasPrefix(sc.Name(), "With") || strings.HasPrefix(sc.Name(), "Set") || strings.HasPrefix(sc.Name(), "Add")) {
 					c.Bad("S7 login-event-read-only", "call of "+sc.Name()+" in "+fn.Name(), p.InstrPos(in), "a mutating method is called on the event handed over with the login (RemoteUserLogin.Source)")
 				}
 			case *ssa.UnOp:
-				if x.Op == token.MUL && viaSource(x.X) {
-					nread++
+				if x.Op == token.MUL {
+					if h, _ := viaSource(x.X, 0); h {
+						nread++
+					}
 				}
 			}
 		})
 	}
-	c.OK("S7 login-event-read-only", "correlator packages processors/auditd/...", "-", fmt.Sprintf("%d functions scanned, %d read(s) through RemoteUserLogin.Source, no write", nfn, nread))
+	_ = refType
+	c.OK("S7 login-event-read-only", "correlator packages processors/auditd/... and internal/common", "-", fmt.Sprintf("%d functions scanned, %d read(s) through RemoteUserLogin.Source, no write", nfn, nread))
 	c.Floor("reads through RemoteUserLogin.Source in the correlator (the rule has something to look at)", 1, nread)
 }
